@@ -21,7 +21,7 @@ RULE = ("worlds with three-phase mixed-sign constraint matrices (1-6 constraints
         "distinct phase angles; distinct = history signature + probe pattern")
 PROBES = ["probe", "concurrent_callers", "negative_limit_probe", "algorithm_side_default_tolerances", "creeping_schedule_probe", "non_finite_entry_probe", "probe_within_2tol_mixed_sign", "explicit_tolerances", "rel_tol_dominates", "linear_probe", "multi_period",
           "negative_entries", "one_dim_vector", "constraint_free_world", "constraint_free_sorted_completed", "dict_omitted_rows",
-          "executed_columns_checked", "invalid_schedule_warning_seen", "probe_after_reconfig", "exact_boundary_probe", "tolerances_retuned_between_questions", "neighbouring_site_asked_in_between", "infrastructure_description_edited_and_asked_again",
+          "executed_columns_checked", "invalid_schedule_warning_seen", "probe_after_reconfig", "exact_boundary_probe", "tolerances_retuned_between_questions", "long_schedule_with_overloaded_tail", "neighbouring_site_asked_in_between", "infrastructure_description_edited_and_asked_again",
           "exactly_at_limit_plus_tol", "exact_linear_probe"]
 FAULT_DIMENSION = ("environment fault only: the operator changes a constraint limit between two periods (all three checkers must "
                    "follow); otherwise state/message distribution (pure function); probes are messages the party sends during a run")
@@ -230,6 +230,32 @@ def probe_once(out, sc, nw, iface, r, tag, cons, neighbour=None):
                 out.add("C06/%s_vs_phasor" % kk, "%s: %s check says %s, phasor definition says %s (margin %.3e A on constraint %d, k=%s, vt=%g rt=%g, T=%d)"
                         % (tag, kk, v, want, m, j, k, vt, rt, T))
                 return
+    # a very long schedule (minute data of weeks or months) that is fine everywhere except in its last few periods
+    rlg = sub(sc["seed"], "long_schedule", tag, T)
+    if rlg.random() < 0.012 and not neg:
+        TL = rlg.choice([1100, 4200, 17000, 70000, 2 ** 18 // N + 5, 2 ** 20 // N + 37])
+        g_in = phasor.max_scale(cons, phases, [[row[0]] for row in D], vt, rt, -10)
+        g_out = phasor.max_scale(cons, phases, [[row[0]] for row in D], vt, rt, 10)
+        if g_in is not None and g_out is not None and g_in > 0:
+            m_in, _ = phasor.margins(cons, phases, [[g_in * row[0]] for row in D], vt, rt)
+            m_out, w_out = phasor.margins(cons, phases, [[g_out * row[0]] for row in D], vt, rt)
+            sc_l = max(1.0, cons[w_out[0]][1])
+            if m_in > 1e-9 * sc_l and m_out < -1e-9 * sc_l:
+                tail = rlg.randint(1, 30)
+                AL_ = np.empty((N, TL), dtype=float)
+                for i_ in range(N):
+                    AL_[i_, :] = g_in * D[i_][0]
+                    AL_[i_, TL - tail:] = g_out * D[i_][0]
+                out.probe("long_schedule_with_overloaded_tail")
+                lres = {"network": bool(nw.is_feasible(AL_, False, kw.get("violation_tolerance"), kw.get("relative_tolerance"))),
+                        "algorithm": bool(sut.algo_utils.infrastructure_constraints_feasible(AL_, infra, False, vt, rt))}
+                if TL <= 70000:
+                    lres["interface"] = bool(iface.is_feasible({ids[i_]: AL_[i_] for i_ in range(N)}, False, kw.get("violation_tolerance"), kw.get("relative_tolerance")))
+                for kk, v in lres.items():
+                    if v:
+                        out.add("C06/%s_vs_phasor" % kk, "%s: %s check accepts a schedule of %d periods whose last %d periods exceed constraint %d by %.3e A "
+                                "(all earlier periods are well inside)" % (tag, kk, TL, tail, w_out[0], -m_out))
+                        return
     # the operator re-tunes the network's own tolerances (public attributes) between two questions; questions that name no
     # tolerance are answered with the values in force at that moment
     rtn = sub(sc["seed"], "retune", tag, T)
